@@ -203,12 +203,15 @@ def _fold(rep, contract_mod, r, meta, verbose):
             bad = [o for o in os_ if o["status"] != "unsat"][0]
             rep.add(Obligation(oid, clause, bad["goal"], UNDECIDED, bad["backend"], t, label=lab, vcs=len(os_),
                                detail="solver: %s" % bad["detail"]))
-    for u in r["uncaught"]:
+    if r["uncaught"]:
+        us = r["uncaught"]
+        u = ([x for x in us if x["status"] == "sat"] or us)[0]
+        excs = sorted({x["exc"] for x in us})
         ob = Obligation("%s/no-unexpected-exception" % hname, clause,
-                        "the harness runs to completion on every feasible path (raised %s)" % u["exc"],
+                        "the harness runs to completion on every feasible path (raised %s)" % "; ".join(excs)[:300],
                         FAILED if u["status"] == "sat" else UNDECIDED, u["backend"], u["time_s"], label=label,
                         detail="exception %s; counter-model: %s" % (u["exc"], json.dumps(u["model"], default=str)[:1200]),
-                        model=u["model"])
+                        model=u["model"], vcs=len(us))
         ob.harness = hname
         ob.contract_mod = contract_mod
         rep.add(ob)
